@@ -6,26 +6,11 @@ and the nodes the loop adds; static conditions under which the look-ups `node_ma
 namespace KV.Transform
 open KV
 
-/-- dictionary key of a (kind, name) pair -/
-def keyOfKN (kn : String × String) : String × Bool := (kn.2, kn.1 == "__fork__")
-
 theorem keys_eq_kindNames (nn : NNet) : nn.keys = nn.kindNames.map keyOfKN := by
   simp only [NNet.keys, NNet.kindNames, List.map_map]
   apply List.map_congr_left
   intro i _
   rfl
-
-/-- the keys of the nodes `substitute` adds -/
-def addedKeys (m : NNet) (hn : String) (des : Option Nat) : List (String × Bool) := (addedKN m hn des).map keyOfKN
-
-/-- **no name clash**: the nodes `substitute` adds (`<instance>~<internal name>`, forks for ports) have pairwise different keys and
-    none of them is the key of a node of the host (after the instance took the designated cell's kind, or was removed) -/
-def addFreshB (h : NNet) (c : Nat) (m : NNet) : Bool :=
-  match implShape m with
-  | none => false
-  | some sh =>
-    let ks := addedKeys m (h.names.getD c "") sh.des
-    decide ks.Nodup && ks.all fun k => !((phase1 h c m sh.des).1.keys.contains k)
 
 theorem fold_some (m : NNet) (hn : String) (des : Option Nat) : ∀ (js : List Nat) (st : NNet × Array (Option Nat)),
     LI st.1 → MapLt st.2 st.1.net.nodes.size → ((js.filterMap (addedOne m hn des)).map keyOfKN).Nodup →
@@ -112,10 +97,6 @@ theorem fold_mapDom (m : NNet) (hn : String) (des : Option Nat) : ∀ (js : List
           · left; rw [if_pos ⟨e.symm, e ▸ h4⟩]; rfl
           · exact Or.inr ⟨e, h4, h5⟩
 
-/-- which nodes of the implementation are in `node_map` (static) -/
-def mappedB (m : NNet) (des : Option Nat) (j : Nat) : Bool :=
-  decide (j < m.net.nodes.size) && (des == some j || (addedOne m "" des j).isSome)
-
 theorem addedOne_isSome_hn (m : NNet) (hn hn' : String) (des : Option Nat) (j : Nat) :
     (addedOne m hn des j).isSome = (addedOne m hn' des j).isSome := by
   unfold addedOne
@@ -161,24 +142,6 @@ theorem fold_mapped (h : NNet) (c : Nat) (m : NNet) (des : Option Nat) (st' : NN
   · rintro ⟨h1, h2 | h2⟩
     · exact Or.inl ⟨h2, h1⟩
     · exact Or.inr ⟨h1, h1, h2⟩
-
-/-- **no `KeyError`** (static, about the implementation alone): the node that an input port's only line leads to, the fork of a
-    multi-reader input port, the fork of an output port that is read inside and the driver of every other output line are in
-    `node_map` -/
-def targetsOKB (m : NNet) : Bool :=
-  match implShape m with
-  | none => false
-  | some sh =>
-    (sh.inPorts.all fun inn =>
-      (m.net.node inn).outs.length == 0 ||
-      (if (m.net.node inn).outs.length == 1 then
-        match (m.net.node inn).outs.head? with
-        | some (some l) => mappedB m sh.des (m.net.line l).reader
-        | _ => false
-       else mappedB m sh.des inn)) &&
-    (sh.outLines.all fun l =>
-      if (m.net.node (m.net.line l).reader).outs.length > 0 then mappedB m sh.des (m.net.line l).reader
-      else mappedB m sh.des (m.net.line l).driver)
 
 theorem inTarget_some (m : NNet) (sh : Shape) (map : Array (Option Nat)) (hs : implShape m = some sh) (ht : targetsOKB m = true)
     (hmap : ∀ j, (map.getD j none).isSome = mappedB m sh.des j) (inn : Nat) (hin : inn ∈ sh.inPorts)
